@@ -822,4 +822,73 @@ theorem rsim_all (hne : dr ≠ rv) :
 
 end
 
+/-- What the caller of a function sees: falling off the end returns `None`. -/
+def fnResult : Out → Out
+  | .normal => .ret .none
+  | o => o
+
+section
+variable (dr rv : Name) (X : Ext)
+
+/-- Return lowering preserves the behaviour of a function body, as seen by the caller. -/
+theorem lowerReturn_correct (hne : dr ≠ rv) (body : Block)
+    (hclean : CleanB (HidR dr rv) body) (hfrag : finOKB body = true)
+    (n : Nat) (σ : St) (o : Out) (σ1 : St) (h : execB X n body σ = some (o, σ1)) :
+    ∃ m σ1' o', execB X m (lowerReturn dr rv body) σ = some (o', σ1') ∧ fnResult o' = fnResult o ∧
+      Agree (HidR dr rv) σ1 σ1' := by
+  by_cases hu : (retB dr rv false false body).2 = true
+  · -- a return occurs: initialisation, lowered body, final return
+    let σ0 := (σ.set dr (.int 0)).set rv .none
+    have hag0 : Agree (HidR dr rv) σ σ0 :=
+      ((Agree.refl _ σ).setHidden (Or.inl rfl) _).setHidden (Or.inr rfl) _
+    have hdr0 : σ0.env dr = some (.int 0) := by
+      show ((σ.set dr (.int 0)).set rv .none).env dr = _
+      rw [St.set_env_ne _ _ hne]; simp
+    have hrv0 : σ0.env rv = some .none := by
+      show ((σ.set dr (.int 0)).set rv .none).env rv = _
+      simp
+    obtain ⟨m, σ1', o', hx, hag, hp⟩ :=
+      (rsim_all dr rv X hne n).2.1 body false false σ σ0 o σ1 hclean hfrag hag0 (fun _ => hdr0) h
+    have hinit : execB X 3 [.assign dr cFalse, .assign rv cNone] σ = some (.normal, σ0) := by
+      simp [execB, exec, evalE, cFalse, cNone, σ0]
+    have hlow : lowerReturn dr rv body =
+        [.assign dr cFalse, .assign rv cNone] ++ ((retB dr rv false false body).1 ++ [.ret (some (.var rv))]) := by
+      simp [lowerReturn, hu]
+    rw [hlow]
+    by_cases hor : ∃ v, o = .ret v
+    · obtain ⟨v, rfl⟩ := hor
+      obtain ⟨_, ho', _, hval⟩ := hp.1 v rfl
+      subst ho'
+      have hfinal : execB X 2 [.ret (some (.var rv))] σ1' = some (.ret v, σ1') := by
+        simp [execB, exec, evalE, hval]
+      exact ⟨3 + (m + 2), σ1', .ret v, execB_append hinit (execB_append hx hfinal), rfl, hag⟩
+    · have hor' : ∀ v, o ≠ .ret v := fun v hv => hor ⟨v, hv⟩
+      obtain ⟨ho', hcur⟩ := hp.2.1 hor'
+      subst ho'
+      by_cases hn : o' = .normal
+      · subst hn
+        have hval : σ1'.env rv = some .none := by
+          rcases hcur with hcur | hcur
+          · rw [hcur.2]; exact hrv0
+          · exact absurd hcur (by simp [Out.fatal])
+        have hfinal : execB X 2 [.ret (some (.var rv))] σ1' = some (.ret .none, σ1') := by
+          simp [execB, exec, evalE, hval]
+        exact ⟨3 + (m + 2), σ1', .ret .none, execB_append hinit (execB_append hx hfinal), rfl, hag⟩
+      · exact ⟨3 + m, σ1', o', execB_append hinit (execB_append_abrupt _ hx hn), rfl, hag⟩
+  · have hu' : (retB dr rv false false body).2 = false := by simpa using hu
+    obtain ⟨m, σ1', o', hx, hag, hp⟩ :=
+      (rsim_all dr rv X hne n).2.1 body false false σ σ o σ1 hclean hfrag (Agree.refl _ σ)
+        (by intro hh; rcases hh with hh | hh | hh
+            · cases hh
+            · cases hh
+            · rw [hu'] at hh; cases hh) h
+    have hor' : ∀ v, o ≠ .ret v := by
+      intro v hv
+      have := (hp.1 v hv).1
+      rw [hu'] at this; cases this
+    refine ⟨m, σ1', o', ?_, by rw [(hp.2.1 hor').1], hag⟩
+    simpa [lowerReturn, hu'] using hx
+
+end
+
 end Malt.Sem.Jumps
